@@ -131,5 +131,8 @@ Example ex_determined : forall r1 r2,
 Proof.
   destruct (hyps_b_sound _ _ _ _ ex_hyps1) as (TR & MR & _ & HT & _).
   destruct (hyps_b_sound _ _ _ _ ex_hyps1') as (TR' & _).
-  intros r1 r2. eapply (decode_determined_l (par_of ex_parent) 7 _ HT ex_site); eauto.
+  intros r1 r2 D1 D2.
+  exact (decode_determined_l (par_of ex_parent) (zlen ex_parent) (default_fuel ex_tree) HT ex_site
+           (default_fuel ex_tree) ex_tree ex_v1 (default_fuel ex_tree') ex_tree' ex_v1 r1 r2
+           eq_refl eq_refl eq_refl TR TR' MR D1 D2).
 Qed.
